@@ -1651,6 +1651,13 @@ func (db *DB) CommitWAL(ctx context.Context) (err error) {
 		}
 		pgno := binary.BigEndian.Uint32(frame[0:4])
 
+		// Skip pages past the end of the database. SQLite can spill a page to the
+		// WAL and then shrink the database below it within the same transaction.
+		if pgno > commit {
+			TraceLog.Printf("[CommitWALPage(%s)]: pgno=%d SKIP(PAST_COMMIT)\n", db.name, pgno)
+			continue
+		}
+
 		// Copy page into LTX file.
 		if err := enc.EncodePage(ltx.PageHeader{Pgno: pgno}, frame[WALFrameHeaderSize:]); err != nil {
 			return fmt.Errorf("cannot encode ltx page: pgno=%d err=%w", pgno, err)
